@@ -2675,6 +2675,24 @@ Lemma x5_departure_stop_refuted :
   valid_b x5_P x5_S = [] /\ single_act_stops x5_S = false /\ check_vehicle_load x5_P x5_S = CErr [[ELoadMismatch]].
 Proof. vm_compute. repeat split. Qed.
 
+(* NEW (C12-F20): get_vehicle_shift finds the shift BY TIME.  One vehicle with two shifts that overlap in time (shift 0 open-ended
+   from 0, shift 1 closed from 10), tourSize 1: the tour of shift 1 (departure, job 1, arrival) is counted with the open-ended
+   shift 0 (one terminal activity subtracted instead of two) - the document the solver returned for this problem, rejected *)
+Definition x11_P : pproblem :=
+  mkPProblem [mkPJob 1 [mkPTask 1 [mkPPlace 1 5 [(NEGT, INF)] None] 1] true [] [] [] None None [] [];
+              mkPJob 2 [mkPTask 1 [mkPPlace 2 5 [(NEGT, INF)] None] 1] true [] [] [] None None [] []]
+             [mkPVType 1 [1] [mkPShift 0 0 INF None [] []; mkPShift 0 10 INF (Some (0, 1000)) [] []] 10 7 1 2 [] None None (Some 1) []]
+             3 XMAT XMAT [].
+Definition x11_S : ssolution :=
+  mkSSolution (mkSStat 154 40 50 40 10 0 0)
+    [mkSTour 1 1 0 [mkSStop 0 0 0 1 0 [mkSAct (-1) 10 None None None]; mkSStop 2 20 25 0 20 [mkSAct 2 1 None None None]]
+             (mkSStat 77 20 25 20 5 0 0) [];
+     mkSTour 1 1 1 [mkSStop 0 10 10 1 0 [mkSAct (-1) 10 None None None]; mkSStop 1 20 25 0 10 [mkSAct 1 1 None None None];
+                    mkSStop 0 35 35 0 20 [mkSAct (-1) 11 None None None]] (mkSStat 77 20 25 20 5 0 0) []] [].
+Lemma x11_shift_by_time_refuted :
+  valid_b x11_P x11_S = [] /\ ctx_frag x11_P x11_S = false /\ check_limits x11_P x11_S = CErr [[ETourSize]].
+Proof. vm_compute. repeat split. Qed.
+
 (* reloads: capacity 1, two deliveries, one reload place at location 1 *)
 Definition x6_P : pproblem :=
   mkPProblem [mkPJob 1 [mkPTask 1 [mkPPlace 1 5 [(0, 100)] None] 1] true [] [] [] None None [] [];
@@ -2831,3 +2849,7 @@ Lemma checker_relation_any_nonvacuous : exists P S r,
   /\ relation_count P (nodup Z.eq_dec (rl_jobs r)) = KOk (length (rl_jobs r))
   /\ rel_vehicle_ok r S = true /\ relation_rule P S r = KOk tt.
 Proof. exists x2_P, x2_S, x2_rel_any. split; [reflexivity|exact x2_rel_any_nonvacuous]. Qed.
+
+Lemma checker_shift_by_time_refuted : exists P S,
+  valid_b P S = [] /\ ctx_frag P S = false /\ check_limits P S = CErr [[ETourSize]].
+Proof. exists x11_P, x11_S. exact x11_shift_by_time_refuted. Qed.
